@@ -27,6 +27,9 @@ class SuccessHistoryIntelligentOptimization(OptimizationAbstract):
         super().__init__(config, debug)
         self.__a = 1.5
 
+    def before_initialization(self):
+        self.__a = 1.5
+
     def set_config_parameters(self, parameters: dict[str, Any]):
         self._config = SuccessHistoryIntelligentOptimizationConfig(**parameters)
 
